@@ -156,6 +156,7 @@ type Host struct {
 	Accepts  []time.Time // arrival times of connection attempts (C16 backoff)
 	HostID   primitive.UUID
 	DC       string                    // data center of this host ("" = the cluster's)
+	RelVer   string                    // release_version this host reports ("" = the cluster's): rolling upgrade
 	MaxVer   primitive.ProtocolVersion // this host's own maximum version (0 = the cluster's)
 	reject   bool                      // accept connections and close them at once (records the attempt times)
 }
@@ -874,8 +875,12 @@ func (c *Conn) systemRows(v primitive.ProtocolVersion, peers bool) message.Messa
 		if h.DC != "" {
 			dc = h.DC
 		}
+		rel := cl.ReleaseVer
+		if h.RelVer != "" {
+			rel = h.RelVer
+		}
 		r = append(r, enc(datacodec.Inet, ip, v), enc(datacodec.Varchar, dc, v), enc(datacodec.Varchar, "r1", v),
-			enc(setOfVarchar, []string{fmt.Sprint(h.Idx * 1000)}, v), enc(datacodec.Varchar, cl.ReleaseVer, v),
+			enc(setOfVarchar, []string{fmt.Sprint(h.Idx * 1000)}, v), enc(datacodec.Varchar, rel, v),
 			enc(datacodec.Uuid, &hid, v), enc(datacodec.Uuid, &hid, v))
 		if cl.DSEVersion != "" {
 			r = append(r, enc(datacodec.Varchar, cl.DSEVersion, v))
